@@ -116,6 +116,13 @@ func TestVerif_C16_commit(t *testing.T) {
 				oc.ChainFeeOutcome = chainfee.Outcome{GasPrices: []cciptypes.GasPriceChain{{ChainSel: 3, GasPrice: cciptypes.NewBigIntFromInt64(5)}}}
 			}
 		}
+		if empty && r.Bool() {
+			// empty, but with allocated zero-length slices (what buildReport produces for ReportEmpty and what
+			// JSON "[]" decodes to) rather than nil ones
+			oc.MerkleRootOutcome = merkleroot.Outcome{OutcomeType: merkleroot.ReportEmpty, RootsToReport: []cciptypes.MerkleRootChain{},
+				RMNReportSignatures: []cciptypes.RMNECDSASignature{}}
+			oc.ChainFeeOutcome = chainfee.Outcome{GasPrices: []cciptypes.GasPriceChain{}}
+		}
 		ocb, err := oc.Encode()
 		if err != nil {
 			t.Fatal(err)
@@ -282,6 +289,20 @@ func TestVerif_C16_commit_gates(t *testing.T) {
 			}
 			for k := 0; k < sigs; k++ {
 				rep.RMNSignatures = append(rep.RMNSignatures, cciptypes.RMNECDSASignature{R: cciptypes.Bytes32{byte(k + 1)}, S: cciptypes.Bytes32{9}})
+			}
+			if r.Bool() { // absent parts as allocated zero-length slices instead of nil
+				if roots == 0 {
+					rep.MerkleRoots = []cciptypes.MerkleRootChain{}
+				}
+				if tp == 0 {
+					rep.PriceUpdates.TokenPriceUpdates = []cciptypes.TokenPrice{}
+				}
+				if gp == 0 {
+					rep.PriceUpdates.GasPriceUpdates = []cciptypes.GasPriceChain{}
+				}
+				if sigs == 0 {
+					rep.RMNSignatures = []cciptypes.RMNECDSASignature{}
+				}
 			}
 			rd := &vCCIPReader{CurseFn: func(dest cciptypes.ChainSelector, src []cciptypes.ChainSelector) (*readerpkg.CurseInfo, error) {
 				switch curse {
